@@ -21,7 +21,9 @@ CHECKS = {
              'classified by an independent regex-free recogniser and compared '
              'with the resolver of a yatiml Loader instance and with '
              'load_function() end to end (type and value). Exhaustive within '
-             'the bound, sampled beyond it.',
+             'the bound, sampled beyond it. Each spelling is also loaded as the '
+             'only node of documents with ---, ... and %YAML 1.1 / %YAML 1.2 / '
+             '%TAG directives and must be typed as when loaded alone.',
         design='4 C09'),
 }
 
@@ -52,7 +54,8 @@ CHECKS['C01'] = dict(
          'savorize hooks) x valid, mutated, tagged, aliased, random and empty '
          'documents; whatever load() returns must conform to the document '
          'type all the way down and every logged __init__ call must have '
-         'received conforming arguments.',
+         'received conforming arguments. '
+         'Plus every small tagged mapping document over the hierarchy portfolio models (exhaustive, every class tag on the root).',
     design='4 C01')
 CHECKS['C04'] = dict(
     technique='[thorough tier additionally: atheris/libFuzzer coverage-guided byte fuzzing of load(text) over 20 portfolio models with this property\'s oracle inside the target, 16 processes] '
@@ -93,7 +96,8 @@ CHECKS['C15'] = dict(
          'SeasoningError for duplicates only in strict mode; the two inverse '
          'compositions must restore the data up to the key attribute\'s '
          'position; the dash/underscore renamings must be inverse on clean '
-         'keys.',
+         'keys. '
+         'An item node also referenced from another attribute must come out of seq_to_map / index_to_map untouched.',
     design='4 C15')
 
 CHECKS['C14'] = dict(
@@ -169,7 +173,8 @@ CHECKS['C16'] = dict(
          'unions, containers]), require_attribute_value / _value_not (five '
          'scalar kinds): returns exactly when the documented condition '
          'holds, raises RecognitionError otherwise, never another exception, '
-         'never modifies the node.',
+         'never modifies the node. '
+         'For mappings with a repeated key only the weak oracle applies (returns or raises RecognitionError, node untouched).',
     design='4 C16')
 
 CHECKS['C07'] = dict(
@@ -187,7 +192,8 @@ CHECKS['C07'] = dict(
          '(constants rejected) and by an own RFC 8259 parser, content equal '
          'to the JSON projection with int/float kind and order, ASCII-only '
          'and whitespace-free by default, no escaped non-ASCII with '
-         'ensure_ascii=False, load(json) equal for printable-BMP data.',
+         'ensure_ascii=False, load(json) equal for printable-BMP data. '
+         'Equal date / path / string-like leaves are interned to one object (still tree-shaped); the value also twice in a list.',
     design='4 C07')
 
 CHECKS['C06'] = dict(
@@ -239,7 +245,8 @@ CHECKS['C13'] = dict(
          'additional unrelated registered classes, T4 List/Sequence/'
          'MutableSequence and Dict/Mapping/MutableMapping rotated everywhere, '
          'T5 bool_union_fix inserted at any position of every Union with '
-         'bool: both loads fail or both return equal values.',
+         'bool: both loads fail or both return equal values. '
+         'T3 registers flat classes, a base/derived pair, an abstract base with a child, string-like and hooked classes; exhaustive T3 phase over small documents of 8 portfolio models.',
     design='4 C13')
 
 CHECKS['C12'] = dict(
@@ -273,7 +280,8 @@ CHECKS['C10'] = dict(
          'ever see their own class; hooks of unregistered classes never run; '
          'savorize runs after recognition and before construction (word->int '
          'conversion reaches __init__); SeasoningError surfaces as '
-         'RecognitionError; sweeten sees the node built from the attributes.',
+         'RecognitionError; sweeten sees the node built from the attributes. '
+         'String-like classes with hooks also as Dict key types; an object reached through an alias inside an aliased collection is seasoned exactly once per node.',
     design='4 C10')
 
 CHECKS['C17'] = dict(
@@ -291,7 +299,8 @@ CHECKS['C17'] = dict(
          'key, unknown enum member) at any depth: some cited line is the '
          'line of the corrupted node, of its key or of the start of the '
          'enclosing mapping, and unknown/missing/misspelt keys are named in '
-         'quotes.',
+         'quotes. '
+         'Includes items of a permissive-recogniser class directly below the root (problems found only at construction time).',
     design='4 C17')
 
 CHECKS['C11'] = dict(
